@@ -22,6 +22,8 @@ def eval_bool(t, discr):
 
 def run(ctx):
     _run(ctx)
+    ctx.delegate("C06", ["C06.typed"], "C19.typed",
+                 "typed reads decode the code through the same table and report an invalid code with the value read", floor=20)
     ctx.delegate("C06", ["C06.dispatch"], "C19.decode",
                  "every record's type code is decoded (and an invalid one refused) before anything is made of the record: the generic "
                  "reader has one arm per code and an error for the rest", floor=14)
